@@ -40,17 +40,17 @@ Check C03_stamp_changed : forall runid t content w,
   r_changed r' = Some runid /\ r_csum r' = Some content /\ r_failed r' = None /\ r_gen r' = true.
 Print Assumptions C03_stamp_changed.
 
-Theorem C03_newer_dep_forwards : forall fuel runid w c f r mx seen chg,
+Theorem C03_newer_dep_forwards : forall fuel runid cyc w c f r mx seen chg,
   existsb (Nat.eqb f) seen = false ->
   r_failed r = None ->
   r_changed r = Some chg -> (mx < chg)%Z ->
-  is_dirty (S fuel) runid w c f r mx seen = Ret (VDirty, w, c, []).
+  is_dirty (S fuel) runid cyc w c f r mx seen = Ret (VDirty, w, c, []).
 Proof. exact is_dirty_newer. Qed.
-Check C03_newer_dep_forwards : forall fuel runid w c f r mx seen chg,
+Check C03_newer_dep_forwards : forall fuel runid cyc w c f r mx seen chg,
   existsb (Nat.eqb f) seen = false ->
   r_failed r = None ->
   r_changed r = Some chg -> (mx < chg)%Z ->
-  is_dirty (S fuel) runid w c f r mx seen = Ret (VDirty, w, c, []).
+  is_dirty (S fuel) runid cyc w c f r mx seen = Ret (VDirty, w, c, []).
 Print Assumptions C03_newer_dep_forwards.
 
 Definition C03_full_statement : Prop :=
